@@ -121,7 +121,7 @@ def run(v, pid, tier, names=None, mutate=None, extra_cfgs=None, min_topos=2):
         for cl, loc in sorted(failed.get(t["id"], ())):
             if clause_prop(cl) != pid:
                 continue
-            key = "%s engine=grid clause=%s loc=%s grid=%s" % (pid, cl, loc, t["name"])
+            key = "%s engine=grid clause=%s loc=%s orth=%d grid=%s" % (pid, cl, loc, t["orth"], t["name"])
             v.violation(key, "clause %s (%s) of Trace_Grid fails on grid %s (topo=%s nx=%s ny=%s G=%s orthogonal=%s)"
                         % (cl, loc, t["name"], t["topo"], t["nx"], t["ny"], t["G"], bool(t["orth"])),
                         {"grid": t["name"], "config": campaign.CONFIGS.get(t["name"]), "clause": cl, "loc": loc})
